@@ -199,6 +199,9 @@ def normalize_result(case, res):
     return res
 
 
+fix_candidate = fix_eval_candidate
+
+
 def nontrivial(case, impl):
     return bool(case.get("_nt"))
 
